@@ -44,6 +44,73 @@ def be32(reads):
     return reads[3][2] + reads[2][2] + reads[1][2] + reads[0][2]
 
 
+DECODERS = ("from_utf8", "from_utf8_lossy", "from_utf8_unchecked", "utf8_chunks", "from_utf16")
+
+
+def partial_decode(res, body, g, loops):
+    """UTF-8 validation applied inside the byte-copy loop validates a PART of the buffer: a multi-byte
+    character that straddles the part boundary makes a valid text fail.  Decided structurally: a decoder
+    call in the loop whose Err is propagated unconditionally (`?`) is a violation; a decoder call in the
+    loop whose result is handled otherwise cannot be decided here (checker error)."""
+    blocks_all = body["blocks"]
+
+    def locals_in(x, acc):
+        if isinstance(x, dict):
+            if "l" in x and isinstance(x["l"], int):
+                acc.add(x["l"])
+            for v in x.values():
+                locals_in(v, acc)
+        elif isinstance(x, list):
+            for v in x:
+                locals_in(v, acc)
+        return acc
+    for h, blocks in loops.items():
+        calls = [(b, blocks_all[b]["term"]) for b in sorted(blocks) if blocks_all[b]["term"]["k"] == "call"]
+        rd = [(b, t) for b, t in calls if "read_abs" in (t["callee"]["path"] or "") or (t["callee"]["path"] or "").endswith("Bus::read")]
+        if not rd:
+            continue
+        # does the loop branch on the VALUE of a byte read (then part boundaries may be character boundaries)?
+        taint = set(t["dest"]["l"] for b, t in rd)
+        flag_locals = set()     # discriminants of the `?` on the read itself
+        changed = True
+        while changed:
+            changed = False
+            for b in blocks:
+                for st_ in blocks_all[b]["st"]:
+                    if st_["k"] == "assign" and locals_in(st_["r"], set()) & taint:
+                        if st_["r"]["k"] == "discr":
+                            flag_locals.add(st_["p"]["l"])
+                        elif st_["p"]["l"] not in taint:
+                            taint.add(st_["p"]["l"])
+                            changed = True
+                t = blocks_all[b]["term"]
+                if t["k"] == "call" and locals_in(t["args"], set()) & taint and t["dest"]["l"] not in taint:
+                    taint.add(t["dest"]["l"])
+                    changed = True
+        value_dependent = False
+        for b in blocks:
+            t = blocks_all[b]["term"]
+            if t["k"] == "switch" and (locals_in(t["o"], set()) - flag_locals) & taint:
+                value_dependent = True
+        for b, t in calls:
+            path = t["callee"]["path"] or ""
+            if not any(path.split("::")[-1] == d for d in DECODERS):
+                continue
+            propagated = False
+            for b2, t2 in calls:
+                p2 = t2["callee"]["path"] or ""
+                if p2.endswith("Try>::branch") and t2["args"]:
+                    for r in g.roots(t2["args"][0]):
+                        if r[0] == "call" and r[1] == path and r[2] == b:
+                            propagated = True
+            res.ob(not propagated)
+            if propagated and not value_dependent:
+                res.finding("write|partial-utf8-validation", "UTF-8 validation (%s, line %s) is applied to a part of the buffer inside the copy loop and its error is propagated: "
+                            "a multi-byte character straddling the part boundary makes a valid text fail and nothing is emitted" % (path.split("::")[-1], t["ln"]))
+            else:
+                res.errors.append("a UTF-8 decoder (%s, line %s) is applied inside the copy loop with data-dependent part boundaries or with its own error handling: not decidable by this rule" % (path, t["ln"]))
+
+
 def run(ctx, res):
     facts = ctx["facts"]
     res.explanation = __doc__.split("\n\n", 1)[1].replace("\n", " ")
@@ -67,6 +134,7 @@ def run(ctx, res):
     body = facts.bodies[k_mes[0]]
     g = cfgmod.Cfg(body)
     loops = g.loops()
+    partial_decode(res, body, g, loops)
     if len(loops) != 1:
         res.errors.append("trapa_emulate_mes2: expected one loop, found %d" % len(loops))
         return
